@@ -194,7 +194,7 @@ PROPS = {
         "exhaustive": False,
         "proved": ["C13_main", "C13_noblock", "C13_sibling",
                    "C13_transcription_pinned (T1: control structure and calls of 9 functions of flush.go, generator.go, join.go, runtime.go)"],
-        "monitored": ["model exec = real render of the same tree", "specification denote = real render"],
+        "monitored": ["hand-written layers that set the nonce before handing the block on; blocks that hold only an HTML comment or only Go code", "model exec = real render of the same tree", "specification denote = real render"],
         "partial": [],
         "trusted_base": ["context.WithValue semantics; Go closures capture the enclosing template's children variable"],
         "assumptions": STD_ASSUME,
@@ -216,7 +216,7 @@ PROPS = {
                       "runtime.Buffer at capacities 1,3,4,8 over every fault offset x short/zero write x StringWriter or not; 15 fixture "
                       "components (generated, Join, Raw, JSONScript, Once, Flush, nested, failing expression/attribute/component, children "
                       "captured into a plain writer) are rendered with a writer failing at every offset (stride in quick) followed by a healthy "
-                      "render on the same pools, and the Lean predicates are evaluated on the real observations.",
+                      "render on the same pools, and the Lean predicates are evaluated on the real observations. The caller writer of the model may also break the io.Writer contract (silent: from its limit on it takes less than it was given and returns no error): the three theorems quantify over such writers too, because runtime.Buffer puts a checking writer in front of bufio (repair 0f5e0ab); C10_unchecked_silent_stuck shows that without it the large-write loop of bufio does not move, C10_silent_zero_reported that with it the write ends with the error set.",
         "level_note": "Trusted: bufio.Writer and sync.Pool semantics as modelled (tied by T2); the correspondence between generated code and the "
                       "step list (each write followed by an error check; deferred ReleaseBuffer adopting the flush error) is observed on the "
                       "fixture templates here and by C02's generator model in general; error-position lines are checked against the real "
@@ -321,7 +321,7 @@ PROPS = {
         "proved": ["C08_same_class_same_program", "C08_same_class_same_rendering", "C08_norm_projection", "C08_fragment_class_kept",
                    "C08_fragment_same_program",
                    "C08_transcription_pinned (T1: control structure and calls of 30 functions of types.go)"],
-        "monitored": ["fmt(x) accepted", "generated code of x and fmt(x) identical modulo positions/gofmt", "layout class kept, template by template",
+        "monitored": ["after templ fmt <file> every import the generated code uses is still declared (named imports of templ included)", "fmt(x) accepted", "generated code of x and fmt(x) identical modulo positions/gofmt", "layout class kept, template by template",
                       "same class => same real code (model correspondence)",
                       "fragment + parser-well-formed + spaced => the real formatter keeps the class"],
         "partial": ["class preservation by the real formatter is checked per input, not proved"],
@@ -351,7 +351,7 @@ PROPS = {
         "exhaustive": False,
         "proved": ["C09_print_reparse", "C09_wf_reparse", "C09_stable",
                    "C09_transcription_pinned (T1: control structure and calls of 30 functions of types.go)"],
-        "monitored": ["real fmt(fmt x) = fmt x on every accepted input", "Printer.body = real formatter output", "Reparse.body = real parser on formatted text",
+        "monitored": ["templ fmt <file> run twice on files whose imports need tidying: the second run changes nothing", "real fmt(fmt x) = fmt x on every accepted input", "Printer.body = real formatter output", "Reparse.body = real parser on formatted text",
                       "wfNodes on every parsed tree", "print(reparse t) = print t on every parsed tree of the fragment"],
         "partial": ["constructs outside the fragment: implementation-level check only"],
         "trusted_base": ["go/format (oracle)"],
@@ -532,7 +532,7 @@ PROPS = {
         "proved": ["C03_inliteral (all three quote kinds, all byte strings)", "C03_bare_string", "C03_json_html_safe", "C03_attr", "C03_fname",
                    "table coverage / entry correctness by decide over the regenerated tables",
                    "C03_transcription_pinned (T1: control structure and calls of scripttemplate.go:jsonEncodeParam, scriptelement.go:scriptContent)"],
-        "monitored": ["the same expression text in several positions of one script element = the concatenation of the single-position renders", "models = real runtime.ScriptContent*, json.Marshal, templ.SafeScript*", "lexer predicate on real rendered documents for 11 positions",
+        "monitored": ["a dollar sign written directly before the expression inside a template literal (known finding backtick-dollar)", "the same expression text in several positions of one script element = the concatenation of the single-position renders", "models = real runtime.ScriptContent*, json.Marshal, templ.SafeScript*", "lexer predicate on real rendered documents for 11 positions",
                       "parser's in-literal flag of every {{ }} = the JS source lexer's, on generated scripts"],
         "partial": ["the parser's quote tracker is checked against the JS source lexer per input, not proved; known finding for regex literals / ${ } / <!--",
                     "full JSON value round trip (Json.parse) is stated for strings only; containers are covered by the < > & freedom theorem"],
